@@ -52,6 +52,7 @@ pub fn check_vec<Tr: ?Sized + Trait, B: Backend, E: Elem>(v: &AnyVec<Tr, B>, m: 
     let t = v.downcast_ref::<E>();
     vp_assert!(t.is_some(), "VP: downcast_ref to the real element type failed");
     let t = t.unwrap();
+    vp_assert!(t.as_ptr() as usize % core::mem::align_of::<E>() == 0, "VP: storage pointer is not aligned for the element type");
     check_slice::<E>(t.as_slice(), m);
 }
 
